@@ -49,7 +49,8 @@ ImplicitConv(x, T) ==
     [] x.t = "String" /\ T = "Boolean" -> IF StrBool(x.v) = Null THEN Fail ELSE StrBool(x.v)
     [] OTHER -> Fail
 
-\* "null" an operand is NULL, "none" no common type / conversion failed, else lt eq gt, or eq ne for unordered types
+\* "null" an operand is NULL, "none" no common type / conversion failed, else lt eq gt for numbers and ueq ne for the
+\* types without an order that Part 4 speaks of (Boolean, String)
 Cmp(a, b) ==
   IF a = Null \/ b = Null THEN "null"
   ELSE LET T == IF Prec(a.t) <= Prec(b.t) THEN a.t ELSE b.t
@@ -57,7 +58,7 @@ Cmp(a, b) ==
            y == ImplicitConv(b, T)
        IN IF x = Fail \/ y = Fail THEN "none"
           ELSE IF T \in ONumTypes THEN (IF x.v = y.v THEN "eq" ELSE IF Le(x.v, y.v) THEN "lt" ELSE "gt")
-          ELSE IF x.v = y.v THEN "eq" ELSE "ne"
+          ELSE IF x.v = y.v THEN "ueq" ELSE "ne"
 
 CmpOps == {"Equals", "GreaterThan", "LessThan", "GreaterThanOrEqual", "LessThanOrEqual"}
 Holds(op, c) ==      \* for c in lt eq gt
@@ -66,7 +67,7 @@ Holds(op, c) ==      \* for c in lt eq gt
 CmpResult(op, c) ==
   CASE c = "null" -> {FF, Null}
     [] c = "none" -> {FF}
-    [] c = "ne" -> IF op = "Equals" THEN {FF} ELSE AnyB           \* no order on Booleans / Strings
+    [] c \in {"ueq", "ne"} -> IF op = "Equals" THEN {Bool(c = "ueq")} ELSE AnyB     \* no order on Booleans / Strings
     [] OTHER -> {Bool(Holds(op, c))}
 
 ToBool(x) == CASE x.t = "Boolean" -> x [] x.t = "String" -> StrBool(x.v) [] OTHER -> Null
@@ -107,11 +108,11 @@ Apply(op, xs) ==
     [] op = "Between" ->
          LET c1 == Cmp(xs[1], xs[2]) c2 == Cmp(xs[1], xs[3]) IN
          IF c1 = "null" \/ c2 = "null" THEN {FF, Null}
-         ELSE IF c1 = "ne" \/ c2 = "ne" THEN AnyB
+         ELSE IF {c1, c2} \cap {"ueq", "ne"} # {} THEN AnyB
          ELSE {Bool(c1 \in {"gt", "eq"} /\ c2 \in {"lt", "eq"})}
     [] op = "InList" ->
          LET cs == {Cmp(xs[1], xs[j]) : j \in 2..Len(xs)} IN
-         IF "eq" \in cs THEN {TT} ELSE IF "null" \in cs THEN {FF, Null} ELSE {FF}
+         IF cs \cap {"eq", "ueq"} # {} THEN {TT} ELSE IF "null" \in cs THEN {FF, Null} ELSE {FF}
     [] op = "Like" -> LikeRes(xs[1], xs[2])
     [] op = "BitwiseAnd" -> Bitwise(TRUE, xs[1], xs[2])
     [] op = "BitwiseOr" -> Bitwise(FALSE, xs[1], xs[2])
